@@ -173,9 +173,9 @@ func main() {
 			"capacity growth policy of push/append is not part of the model (only capacity >= length and grow(n) adding exactly n)",
 			"method bodies compiled one at a time (MethodCheckConcurrencyLimit=1)",
 		},
-		QuickDeadline:    30 * time.Minute, // ~35 s on an idle 16-core machine; the host may be heavily shared
-		ThoroughDeadline: 150 * time.Minute,
-		CaseTimeout:      1800 * time.Second,
+		QuickDeadline:    12 * time.Minute, // ~1 min on an idle 16-core machine; past the deadline the remaining cases are skipped (exhaustive:false)
+		ThoroughDeadline: 60 * time.Minute,
+		CaseTimeout:      10 * time.Minute,
 		Setup: func(c *engine.Ctx) {
 			elkrun.Init()
 			debug.SetGCPercent(400)
